@@ -33,9 +33,30 @@ Part `sweep` (end to end)
     and pin arrays after every plane.  After `temperature_sweep()`:
     `_peak` == recorded maxima (values exact, height = first computed plane
     attaining it, stored pin row == recorded row of that pin on that plane);
-    after `postprocess()` the tables parsed from `dassh.out` must show the
-    recorded maxima / final-plane fields to print precision (precision and
-    column widths are read from the table objects' own format strings).
+    after `postprocess()` EVERY printed cell of the coolant, duct and peak pin
+    tables parsed from `dassh.out` must equal the recorded maxima /
+    final-plane fields at print precision (precision and column widths are
+    read from the table objects' own format strings): peak value and height
+    per quantity, bulk / peak outlet, per-face duct averages, one row per
+    physical duct wall under its own number, pin / height / radial profile of
+    the peak pin row, placeholders where nothing is computed, row labels,
+    assembly power (integral of the harness's power specification), assigned
+    flow rate, linear power of the peak pin, and the unit labels of the
+    column headings.
+    Unit variants of the table part: a subset of the same scenarios (quick: a
+    double-duct multi-region FuelModel assembly, a double-duct PinModel bundle,
+    two single-duct multi-region PinModel assemblies with a flowing gap;
+    thorough: every scenario of the quick SI list) is written in length units
+    {cm, in} x temperature units {celsius, fahrenheit} by
+    `vf.props.c17.convert_scenario` (harness-side exact factors; the power CSV
+    stays in metres, as dassh reads it).  The recorder's fields stay in SI and
+    are converted by the harness (`c17.from_si`) for the comparison; the
+    headings must carry the labels of the input's unit system.  For SI inputs
+    cells taken over unchanged from `_peak` must match as strings; for
+    converted values and independent recomputations the tolerance is half a
+    unit of the last printed digit + 1e-9 relative (the two conversions may
+    differ in the last bit).
+    Tiers: quick 50 SI + 12 unit sweeps; thorough 720 SI + 200 unit sweeps.
 """
 import copy
 import os
@@ -46,6 +67,7 @@ import numpy as np
 from ..run import new_result, violation, site_of, guarded, bfs
 from .. import scenario as S
 from .. import observe as O
+from . import c17 as U          # harness-side unit tables and scenario converter (exact factors)
 
 # documented layout of RoddedRegion.pin_temps (region_rodded.make):
 # id, z, pin, adjacent coolant, clad OD / MW / ID, fuel OD / CL
@@ -502,7 +524,29 @@ def cases_sweep(tier):
                                 for na in (1, 2):
                                     out.append({'part': 'sweep', 'shape': sh, 'structure': st, 'ducts': nd,
                                                 'model': mdl, 'n_asm': na, 'rings': rings, 'gap': gap})
+    out += cases_units(tier)
     return out
+
+
+# unit variants of the table part: the SAME physical problems written in another unit system
+UNIT_SYSTEMS = [('cm', 'celsius'), ('cm', 'fahrenheit'), ('in', 'celsius'), ('in', 'fahrenheit')]
+UNIT_BASES = [
+    {'shape': 'bottom', 'structure': 'multi', 'ducts': 2, 'model': 'fuel', 'n_asm': 1, 'rings': 2, 'gap': 'none'},
+    {'shape': 'middle', 'structure': 'bundle', 'ducts': 2, 'model': 'pin', 'n_asm': 1, 'rings': 2, 'gap': 'none'},
+    {'shape': 'several', 'structure': 'multi', 'ducts': 1, 'model': 'pin', 'n_asm': 2, 'rings': 2, 'gap': 'flow'},
+]
+
+
+def cases_units(tier):
+    """quick: 3 scenarios (double-duct multi-region FuelModel; double-duct bundle PinModel; two
+    multi-region PinModel assemblies with a gap) x 4 unit systems; thorough: every scenario of the
+    quick SI list x 4 unit systems"""
+    if tier == 'quick':
+        bases = [dict(b, part='sweep') for b in UNIT_BASES]
+    else:
+        bases = cases_sweep('quick')
+        bases = [b for b in bases if 'lunit' not in b]
+    return [dict(b, lunit=lu, tunit=tu) for b in bases for lu, tu in UNIT_SYSTEMS]
 
 
 def _power(shape, rings, nduct, q, seed):
@@ -581,19 +625,31 @@ def attach_recorder(reactor):
 def _table_meta():
     from dassh import table as T
     out = {}
-    for name, tab, title in (('coolant', T.CoolantTempTable(), 'COOLANT TEMPERATURE SUMMARY'),
-                             ('duct', T.DuctTempTable(), 'DUCT TEMPERATURE SUMMARY'),
-                             ('clad_mw', T.PeakPinTempTable('clad', 'mw'), 'PEAK CLAD MW TEMPERATURES'),
-                             ('fuel_cl', T.PeakPinTempTable('fuel', 'cl'), 'PEAK FUEL CL TEMPERATURES')):
+    for name, tab, title, nhead in (('coolant', T.CoolantTempTable(), 'COOLANT TEMPERATURE SUMMARY', 2),
+                                    ('duct', T.DuctTempTable(), 'DUCT TEMPERATURE SUMMARY', 2),
+                                    ('clad_mw', T.PeakPinTempTable('clad', 'mw'), 'PEAK CLAD MW TEMPERATURES', 3),
+                                    ('fuel_cl', T.PeakPinTempTable('fuel', 'cl'), 'PEAK FUEL CL TEMPERATURES', 3)):
         m = re.search(r'\.(\d+)f', tab._ffmt2)
         out[name] = {'title': title, 'w0': tab.col0_width, 'w': tab.col_width, 'div': tab.divider,
-                     'ncol': tab.n_col, 'width': tab.width, 'fmt': tab._ffmt2, 'dp': int(m.group(1))}
+                     'ncol': tab.n_col, 'width': tab.width, 'fmt': tab._ffmt2, 'dp': int(m.group(1)),
+                     'nhead': nhead}
     return out
 
 
+def _slice(ln, meta):
+    cells = [ln[:meta['w0']].strip()]
+    pos = meta['w0']
+    for k in range(meta['ncol']):
+        pos += len(meta['div'])
+        cells.append(ln[pos:pos + meta['w']].strip())
+        pos += meta['w']
+    return cells
+
+
 def parse_table(text, meta):
-    """data rows (lists of stripped cells) of the section with the given title;
-    None if the section is absent.  Rows follow the first full-width rule."""
+    """(header, rows) of the section with the given title, or None if the section is absent.
+    header = the raw heading lines above the first full-width rule (the last one also sliced into
+    cells); rows = data rows as lists of stripped cells"""
     lines = text.split('\n')
     try:
         i = lines.index(meta['title'])
@@ -603,6 +659,10 @@ def parse_table(text, meta):
     j = i + 1
     while j < len(lines) and lines[j] != rule:
         j += 1
+    if j >= len(lines):
+        return None
+    head = lines[max(i + 1, j - meta['nhead']):j]
+    header = {'lines': head, 'cells': _slice(head[-1], meta) if head else []}
     rows = []
     j += 1
     while j < len(lines) and lines[j].strip() != '':
@@ -610,15 +670,9 @@ def parse_table(text, meta):
         if set(ln) == {'-'}:
             j += 1
             continue
-        cells = [ln[:meta['w0']].strip()]
-        pos = meta['w0']
-        for k in range(meta['ncol']):
-            pos += len(meta['div'])
-            cells.append(ln[pos:pos + meta['w']].strip())
-            pos += meta['w']
-        rows.append(cells)
+        rows.append(_slice(ln, meta))
         j += 1
-    return rows
+    return header, rows
 
 
 def _cell(meta, v):
@@ -627,14 +681,59 @@ def _cell(meta, v):
 
 
 def _num_ok(cellstr, mine, meta):
-    """independent recomputation vs printed value: half a unit of the last
-    printed digit plus round-off of the recomputation (1e-9 relative)"""
+    """independent recomputation (or harness-side unit conversion) vs printed value: half a unit
+    of the last printed digit plus round-off of the recomputation (1e-9 relative)"""
     try:
         x = float(cellstr)
     except ValueError:
         return False, None
     tol = 0.5 * 10.0 ** (-meta['dp']) + 1e-9 * abs(mine)
     return abs(x - mine) <= tol, tol
+
+
+def _sci_ok(cellstr, mine):
+    """'{:.5E}' cells (power, flow rate): half a unit of the fifth decimal of the mantissa"""
+    try:
+        x = float(cellstr)
+    except ValueError:
+        return False, None
+    if not re.match(r'^-?\d\.\d{5}E[+-]\d\d$', cellstr):
+        return False, None
+    e = 0 if mine == 0 else int(np.floor(np.log10(abs(mine))))
+    tol = 0.5 * 10.0 ** (e - 5) * (1 + 1e-6) + 1e-9 * abs(mine)
+    return abs(x - mine) <= tol, tol
+
+
+class Units(object):
+    """harness-side conversion SI -> unit system of the input (factors of vf.props.c17) and the
+    labels the tables must carry"""
+    TLAB = {'kelvin': 'K', 'celsius': u'˚C', 'fahrenheit': u'˚F'}
+
+    def __init__(self, lu, tu):
+        self.lu, self.tu = lu, tu
+        self.si = (lu, tu) == ('m', 'kelvin')
+        self.tlab = '(%s)' % self.TLAB[tu]
+        self.llab = '(%s)' % lu
+
+    def T(self, x):
+        return U.from_si('T', float(x), self.lu, self.tu, 'kg/s')
+
+    def L(self, x):
+        return U.from_si('L', float(x), self.lu, self.tu, 'kg/s')
+
+    def per_L(self, x):
+        """a quantity per metre -> per length unit"""
+        return float(x) * U.LEN[self.lu]
+
+    def same(self, cellstr, v, meta):
+        """printed cell vs converted reference value.  SI inputs: no conversion happens on either
+        side, the strings must be identical; other systems: the two conversions may differ in the
+        last bit, so half a unit of the last printed digit (+1e-9 relative)"""
+        exp = _cell(meta, v)
+        if self.si:
+            return cellstr == exp, exp
+        ok, tol = _num_ok(cellstr, v, meta)
+        return bool(ok and re.match(r'^-?\d+\.\d{%d}$' % meta['dp'], cellstr)), exp
 
 
 def face_means(duct_row):
@@ -650,6 +749,31 @@ def face_means(duct_row):
     return out
 
 
+def spec_power(spec):
+    """from the harness's own power specification (W/m polynomials in z_mod in [-0.5, 0.5] per
+    power cell): total assembly power (W) and pin_linear(p, z) -> candidate linear powers (W/m) of
+    pin p at height z (both adjacent cells when z lies on a cell boundary)"""
+    full = S.expand_power(spec, spec['rings'], spec.get('nduct', 1))
+    cells = full['cells']
+    tot = 0.0
+    for key in ('pins', 'duct', 'cool'):
+        if full.get(key) is None:
+            continue
+        for k in range(len(cells) - 1):
+            for co in full[key][k]:
+                tot += (cells[k + 1] - cells[k]) * sum(cc / ((j + 1) * 2.0 ** j)
+                                                       for j, cc in enumerate(co) if j % 2 == 0)
+
+    def pin_linear(p, z):
+        out = []
+        for k in range(len(cells) - 1):
+            if cells[k] - 1e-9 <= z <= cells[k + 1] + 1e-9:
+                x = (z - cells[k]) / (cells[k + 1] - cells[k]) - 0.5
+                out.append(sum(cc * x ** j for j, cc in enumerate(full['pins'][k][p])))
+        return out
+    return tot, pin_linear
+
+
 def run_sweep(c):
     r = new_result()
     V = r['violations']
@@ -658,7 +782,11 @@ def run_sweep(c):
     def cnt(group, key, v=1):
         ex[group][key] = ex[group].get(key, 0) + v
 
-    scn = sweep_scenario(c)
+    scn_si = sweep_scenario(c)
+    lu, tu = c.get('lunit', 'm'), c.get('tunit', 'kelvin')
+    # the input is written in the case's unit system by the harness's own converter; everything
+    # recorded during the sweep is SI (dassh works in SI internally)
+    scn = scn_si if (lu, tu) == ('m', 'kelvin') else U.convert_scenario(scn_si, lu, tu, 'kg/s')
     with S.Built(scn) as b:
         cap = S.capture_log()
         try:
@@ -763,7 +891,7 @@ def run_sweep(c):
             path = os.path.join(b.dir, 'dassh.out')
             with open(path) as fh:
                 text = fh.read()
-            check_tables(c, rx, rec, refs, text, V, cnt)
+            check_tables(c, scn_si, rx, rec, refs, text, V, cnt)
         r['traces'] = 1
         r['nontrivial'] = bool(fold_matters)
         r['outcome'] = 'violation' if V else ('ok' if fold_matters else 'ok-all-peaks-on-last-plane')
@@ -778,66 +906,114 @@ def run_sweep(c):
     return r
 
 
-def check_tables(c, rx, rec, refs, text, V, cnt):
+def check_tables(c, scn_si, rx, rec, refs, text, V, cnt):
+    """every printed cell of the coolant, duct and peak pin tables (values, heights, labels, unit
+    labels of the headings) against the recorded maxima / final-plane fields, converted by the
+    harness to the unit system of the input"""
     meta = _table_meta()
+    un = Units(c.get('lunit', 'm'), c.get('tunit', 'kelvin'))
     tabs = {}
     for name in meta:
         tabs[name] = parse_table(text, meta[name])
     nasm = len(rx.assemblies)
+    prec = lambda M_: 'print precision %d dp' % M_['dp']
+    # which scenario entries belong to assembly ai (position, flow rate, power specification)
+    asg = []
+    for a in rx.assemblies:
+        hit = [e for e in scn_si['assign'] if S.asm_id(e[1], e[2]) == a.id]
+        spec = scn_si['power']['asm'].get(str(a.id + 1))
+        asg.append({'name': hit[0][0], 'loc': '(%2d,%2d)' % (hit[0][1], hit[0][2]), 'flow': hit[0][3]['flowrate'],
+                    'power': spec_power(spec)})
+
+    def head(name, want_cells, want_in_lines, site):
+        t = tabs[name]
+        if t is None:
+            return
+        hd = t[0]
+        bad = [(i, g, w) for i, (g, w) in enumerate(zip(hd['cells'], want_cells)) if g != w]
+        if len(hd['cells']) != len(want_cells):
+            bad.append(('n', len(hd['cells']), len(want_cells)))
+        txt = '\n'.join(hd['lines'])
+        for w in want_in_lines:
+            if w not in txt:
+                bad.append(('heading', None, w))
+        if bad:
+            V.append(violation('table-header-units', dict(c, table=name),
+                               'column headings / unit labels of the %s table are not those of the input\'s unit '
+                               'system (%s, %s)' % (name, un.lu, un.tu), [b_[1] for b_ in bad], [b_[2] for b_ in bad],
+                               site=site))
+        cnt('sweep_checks', 'table_header_cells_compared', len(want_cells) + len(want_in_lines))
+
     # ---- coolant
     M = meta['coolant']
-    rows = tabs['coolant']
+    site = 'table.py:CoolantTempTable.make'
+    head('coolant', ['Asm', 'Name', '(W)', '(kg/s)', un.tlab, un.tlab, un.tlab, un.tlab, un.llab], [], site)
+    rows = None if tabs['coolant'] is None else tabs['coolant'][1]
     if rows is None or len(rows) != nasm:
         V.append(violation('table-missing', dict(c, table='coolant'), 'coolant temperature table absent or short',
-                           None if rows is None else len(rows), nasm, site='table.py:CoolantTempTable.make'))
+                           None if rows is None else len(rows), nasm, site=site))
     else:
         for ai in range(nasm):
             ca = dict(c, asm=ai, table='coolant')
             ref = refs[ai][0]
             last = rec[ai]['planes'][-1]
             row = rows[ai]
-            if row[0] != str(ai + 1):
-                V.append(violation('table-row-order', ca, 'row label', row[0], str(ai + 1)))
+            if [row[0], row[1]] != [str(ai + 1), asg[ai]['name']]:
+                V.append(violation('table-row-order', ca, 'row label', row[:2], [str(ai + 1), asg[ai]['name']]))
                 continue
+            ok, tol = _sci_ok(row[2], asg[ai]['power'][0])
+            if not ok:
+                V.append(violation('table-coolant-power', ca, 'assembly power is not the integral of the specified '
+                                   'power profile', row[2], asg[ai]['power'][0], tol, site=site))
+            ok, tol = _sci_ok(row[3], asg[ai]['flow'])
+            if not ok:
+                V.append(violation('table-coolant-flow', ca, 'flow rate is not the assigned one', row[3],
+                                   asg[ai]['flow'], tol, site=site))
             # Bulk outlet: mixed mean of the final plane, recomputed from areas and flow split
-            ok, tol = _num_ok(row[4], last['mm'], M)
+            ok, tol = _num_ok(row[4], un.T(last['mm']), M)
             if not ok:
                 V.append(violation('table-coolant-bulk-outlet', ca, 'bulk outlet temperature is not the mixed mean of '
-                                   'the final-plane coolant field', row[4], last['mm'], tol,
-                                   site='table.py:CoolantTempTable.make'))
-            exp = _cell(M, float(np.max(last['cool'])))
-            if row[5] != exp:
+                                   'the final-plane coolant field', row[4], un.T(last['mm']), tol, site=site))
+            ok, exp = un.same(row[5], un.T(np.max(last['cool'])), M)
+            if not ok:
                 V.append(violation('table-coolant-peak-outlet', ca, 'peak outlet temperature is not the maximum of the '
-                                   'final-plane coolant field', row[5], exp, 'print precision %d dp' % M['dp'],
-                                   site='table.py:CoolantTempTable.make'))
-            exp = _cell(M, ref.cool[0])
-            if row[6] != exp:
+                                   'final-plane coolant field', row[5], exp, prec(M), site=site))
+            ok, exp = un.same(row[6], un.T(ref.cool[0]), M)
+            if not ok:
                 V.append(violation('table-coolant-peak', ca, 'peak total coolant temperature is not the recorded maximum',
-                                   row[6], exp, 'print precision %d dp' % M['dp'], site='table.py:CoolantTempTable.make'))
-            exp = _cell(M, ref.cool[1])
-            if row[8] != exp:
+                                   row[6], exp, prec(M), site=site))
+            if row[7] != '-----':
+                V.append(violation('table-coolant-unc', ca, 'peak + uncertainty printed without hot-spot analysis',
+                                   row[7], '-----', site=site))
+            ok, exp = un.same(row[8], un.L(ref.cool[1]), M)
+            if not ok:
                 V.append(violation('table-coolant-height', ca, 'peak height is not the first plane attaining the maximum',
-                                   row[8], exp, 'print precision %d dp' % M['dp'], site='table.py:CoolantTempTable.make'))
-            cnt('sweep_checks', 'table_cells_compared', 4)
+                                   row[8], exp, prec(M), site=site))
+            cnt('sweep_checks', 'table_cells_compared', 9)
     # ---- ducts.  What the statement needs: the peak (and height) of EVERY physical duct wall of the
     # assembly is reported under that wall's number (1 = innermost), and the face temperatures printed
     # in a row are the final-plane means of that same wall (placeholders if the wall is absent there).
     M = meta['duct']
-    rows = tabs['duct']
+    site = 'table.py:DuctTempTable.make'
+    head('duct', ['Asm.', 'Loc.', 'Duct ID'] + ['Face %d' % i for i in range(1, 7)] + [un.tlab, un.llab],
+         ['Average duct MW temperature %s' % un.tlab], site)
+    rows = None if tabs['duct'] is None else tabs['duct'][1]
     if rows is None:
-        V.append(violation('table-missing', dict(c, table='duct'), 'duct temperature table absent',
-                           site='table.py:DuctTempTable.make'))
+        V.append(violation('table-missing', dict(c, table='duct'), 'duct temperature table absent', site=site))
         rows = []
         nasm_d = 0
     else:
         nasm_d = nasm
+    if nasm_d and sorted({rw[0] for rw in rows}) != sorted(str(ai + 1) for ai in range(nasm)):
+        V.append(violation('table-row-order', dict(c, table='duct'), 'assembly labels of the duct table',
+                           sorted({rw[0] for rw in rows}), [str(ai + 1) for ai in range(nasm)]))
     for ai in range(nasm_d):
         ref, dmap, N = refs[ai]
         last = rec[ai]['planes'][-1]
         rmap = dmap[last['ridx']]
         mine = [rw for rw in rows if rw[0] == str(ai + 1)]
         ca = dict(c, asm=ai, table='duct', walls_final_region=len(rmap), walls_asm=N)
-        exp_peaks = [[str(g + 1), _cell(M, ref.duct[g][0]), _cell(M, ref.duct[g][1])] for g in range(N)]
+        exp_peaks = [[str(g + 1), _cell(M, un.T(ref.duct[g][0])), _cell(M, un.L(ref.duct[g][1]))] for g in range(N)]
         got_peaks = [[rw[2], rw[9], rw[10]] for rw in mine]
         if len(mine) != N:
             if len(rmap) < N and len(mine) == len(rmap):
@@ -845,67 +1021,90 @@ def check_tables(c, rx, rec, refs, text, V, cnt):
                                    'assembly with %d duct walls whose outlet region has %d: the table prints %d row(s); '
                                    'the row carrying the outlet face temperatures of wall %d shows the peak of wall 1, '
                                    'and the peak of wall %d is not reported' % (N, len(rmap), len(mine), rmap[0] + 1, N),
-                                   got_peaks, exp_peaks, 'print precision %d dp' % M['dp'],
-                                   site='table.py:DuctTempTable.make'))
+                                   got_peaks, exp_peaks, prec(M), site=site))
             else:
                 V.append(violation('table-missing', ca, 'duct temperature table has %d rows for an assembly with %d '
-                                   'walls' % (len(mine), N), got_peaks, exp_peaks, site='table.py:DuctTempTable.make'))
+                                   'walls' % (len(mine), N), got_peaks, exp_peaks, site=site))
             continue
         for g in range(N):
             row = mine[g]
             cg = dict(ca, physical_duct=g)
-            if row[2] != str(g + 1):
-                V.append(violation('table-row-order', cg, 'duct label', row[2], str(g + 1)))
+            if [row[1], row[2]] != [asg[ai]['loc'], str(g + 1)]:
+                V.append(violation('table-row-order', cg, 'position / duct label', row[1:3], [asg[ai]['loc'], str(g + 1)]))
                 continue
             if g in rmap:
                 fm = face_means([float(x) for x in last['duct'][rmap.index(g)]])
                 for fi in range(6):
-                    ok, tol = _num_ok(row[3 + fi], fm[fi], M)
+                    ok, tol = _num_ok(row[3 + fi], un.T(fm[fi]), M)
                     if not ok:
                         V.append(violation('table-duct-face', cg, 'face %d average is not the mean of the final-plane '
-                                           'mid-wall temperatures of that face' % (fi + 1), row[3 + fi], fm[fi], tol,
+                                           'mid-wall temperatures of that face' % (fi + 1), row[3 + fi], un.T(fm[fi]), tol,
                                            site='table.py:DuctTempTable._get_avg_duct_face_temp'))
                         break
             else:
                 num = [x for x in row[3:9] if re.match(r'^-?\d+(\.\d*)?$', x)]
                 if num:
                     V.append(violation('table-duct-face', cg, 'face temperatures printed for a wall that is absent at '
-                                       'the outlet', row[3:9], 'placeholders', site='table.py:DuctTempTable.make'))
-            if [row[2], row[9], row[10]] != exp_peaks[g]:
-                V.append(violation('table-duct-peak', cg, 'peak temperature / height of duct %d is not the recorded '
-                                   'maximum' % (g + 1), [row[2], row[9], row[10]], exp_peaks[g],
-                                   'print precision %d dp' % M['dp'], site='table.py:DuctTempTable.make'))
-            cnt('sweep_checks', 'table_cells_compared', 8)
+                                       'the outlet', row[3:9], 'placeholders', site=site))
+            ok1, e1 = un.same(row[9], un.T(ref.duct[g][0]), M)
+            if not ok1:
+                V.append(violation('table-duct-peak', cg, 'peak temperature of duct %d is not the recorded maximum'
+                                   % (g + 1), row[9], e1, prec(M), site=site))
+            ok2, e2 = un.same(row[10], un.L(ref.duct[g][1]), M)
+            if not ok2:
+                V.append(violation('table-duct-height', cg, 'peak height of duct %d is not the first plane attaining '
+                                   'the maximum, in the length unit of the heading %s' % (g + 1, un.llab),
+                                   row[10], e2, prec(M), site=site))
+            cnt('sweep_checks', 'table_cells_compared', 10)
     # ---- peak pin tables
     with_pins = [ai for ai in range(nasm) if refs[ai][0].pin is not None]
+    site = 'table.py:PeakPinTempTable.make'
     for name in ('clad_mw', 'fuel_cl'):
         M = meta[name]
-        rows = tabs[name]
+        rows = None if tabs[name] is None else tabs[name][1]
         if not with_pins:
             if rows:
                 V.append(violation('table-pin-unexpected', dict(c, table=name), 'pin table without pin model', rows, None))
             continue
+        hcells = ['ID', 'Name', 'Pin', un.llab, '(W/%s)' % un.lu, '|  Cool', 'OD', 'MW', 'ID', 'OD', 'CL',
+                  '|  Cool', 'OD', 'MW', 'ID', 'OD', 'CL'][:M['ncol'] + 1]
+        head(name, hcells, ['Nominal Peak Temps %s' % un.tlab, 'N-Sigma Peak Temps %s' % un.tlab], site)
         if rows is None or len(rows) != len(with_pins):
             V.append(violation('table-missing', dict(c, table=name), 'peak pin temperature table absent or short',
-                               None if rows is None else len(rows), len(with_pins),
-                               site='table.py:PeakPinTempTable.make'))
+                               None if rows is None else len(rows), len(with_pins), site=site))
             continue
         for row, ai in zip(rows, with_pins):
             ca = dict(c, asm=ai, table=name)
             m, z, plane = refs[ai][0].pin[name]
             col = PINCOL[name]
             cands = [p for p in range(len(plane)) if plane[p][col] == m]
-            if row[0] != str(ai + 1):
-                V.append(violation('table-row-order', ca, 'row label', row[0], str(ai + 1)))
+            if [row[0], row[1]] != [str(ai + 1), asg[ai]['name']]:
+                V.append(violation('table-row-order', ca, 'row label', row[:2], [str(ai + 1), asg[ai]['name']]))
                 continue
             got = [row[2], row[3]] + row[5:11]
-            exps = [[str(p), _cell(M, z)] + [_cell(M, x) for x in plane[p][3:]] for p in cands]
-            if got not in exps:
+            exps, hit = [], None
+            for p in cands:
+                want = [un.L(z)] + [un.T(x) for x in plane[p][3:]]
+                exps.append([str(p)] + [_cell(M, x) for x in want])
+                if row[2] == str(p) and all(un.same(g_, w_, M)[0] for g_, w_ in zip(got[1:], want)):
+                    hit = p
+            if hit is None:
                 V.append(violation('table-pin-row', ca, 'pin / height / radial profile printed with the peak %s '
-                                   'temperature is not the recorded row of the pin and plane of the maximum' % name,
-                                   got, exps[0], 'print precision %d dp' % M['dp'],
-                                   site='table.py:PeakPinTempTable.make'))
-            cnt('sweep_checks', 'table_cells_compared', 8)
+                                   'temperature is not the recorded row of the pin and plane of the maximum, in the '
+                                   'units of the headings' % name, got, exps[0], prec(M), site=site))
+            else:
+                # linear power of that pin at that height, per length unit of the input
+                want = [un.per_L(q) for q in asg[ai]['power'][1](hit, z)]
+                oks = [_num_ok(row[4], w_, M) for w_ in want]
+                if not any(o[0] for o in oks):
+                    V.append(violation('table-pin-power', ca, 'linear power printed with the peak %s temperature is not '
+                                       'the specified power of pin %d at the peak height' % (name, hit), row[4],
+                                       [_cell(M, w_) for w_ in want], prec(M), site='table.py:PeakPinTempTable._get_nominal_temps'))
+            rest = row[11:]
+            if any(x != '-----' for x in rest):
+                V.append(violation('table-pin-unc', ca, 'N-sigma temperatures printed without hot-spot analysis',
+                                   rest, ['-----'] * len(rest), site=site))
+            cnt('sweep_checks', 'table_cells_compared', 11 + len(rest))
 
 
 # ======================================================================
@@ -923,9 +1122,11 @@ def main(run):
                 'transition is a real call of the three _update_peak_* methods (or of update_region) checked '
                 'against the fold of its own history.  sweep: %s of power shape x axial structure x ducts x pin '
                 'model x 1-2 assemblies%s; every axial plane is a recorded state; non-trivial = at least one '
-                'tracked maximum lies below the last plane of its history (reporting final values would be wrong)'
+                'tracked maximum lies below the last plane of its history (reporting final values would be wrong); '
+                'plus unit variants of the table oracle: %s x {cm, in} x {celsius, fahrenheit}'
                 % (depth, 'a covering third (each letter pair with each pin model)' if run.tier == 'quick'
-                   else 'the full product', '' if run.tier == 'quick' else ' x rings {2,3} x gap model {none, flow}'))
+                   else 'the full product', '' if run.tier == 'quick' else ' x rings {2,3} x gap model {none, flow}',
+                   '3 scenarios' if run.tier == 'quick' else 'every scenario of the quick SI list'))
     run.assumptions = [
         '_update_peak_* read only the active region arrays, Assembly.z and _peak (merging; cross-checked against the '
         'unmerged enumeration to depth 2)',
@@ -935,7 +1136,10 @@ def main(run):
         '(z = 0) is a boundary condition and is only required not to exceed the reported peak',
         'PinModel/FuelModel column layout of pin_temps as documented in region_rodded.make',
         'table values are compared at the precision of the table classes\' own format strings; independent '
-        'recomputations (mixed mean, face means) get half a unit of the last digit + 1e-9 relative']
+        'recomputations (mixed mean, face means) and harness-side unit conversions get half a unit of the last digit '
+        '+ 1e-9 relative',
+        'unit factors and the scenario converter of vf.props.c17 (cm = 0.01 m, in = 0.0254 m, C = K - 273.15, '
+        'F = 9/5 K - 459.67); the user power CSV is always in metres and W/m']
     fold_cases = [{'part': 'fold', 'order': o, 'depth': depth} for o in ORDERS]
     cs = cases_sweep(run.tier)
     run.check_determinism(run_case, cs[0])
